@@ -36,6 +36,7 @@ METHODS = {
     'CreateThing': dict(snake='create_thing', req='Req', resp='Thing'),
     'TouchThing': dict(snake='touch_thing', req='Req', resp='Thing'),
     'PlainThing': dict(snake='plain_thing', req='Req', resp='Thing'),
+    'NullThing': dict(snake='null_thing', req='Req', resp='Empty'),
     'Import': dict(snake='import_', req='Req', resp='Thing'),
     'CreateChannel': dict(snake='create_channel', req='Req', resp='Thing'),
     'WatchThings': dict(snake='watch_things', req='Req', resp='Thing'),
@@ -73,6 +74,8 @@ def carrier_api():
         m('CreateThing', 'create', sigs=['name']),
         m('TouchThing', 'touch', sigs=['name,tags,count', 'name,count', 'vals']),
         m('PlainThing', 'plain'),
+        # its reply is the API's OWN message named Empty (with fields): not google.protobuf.Empty, hence not a void method
+        m('NullThing', 'null', out='Empty'),
         m('Import', 'import'),
         m('CreateChannel', 'createChannel', ss=True),
         m('WatchThings', 'watch', sigs=['name'], ss=True),
@@ -83,6 +86,7 @@ def carrier_api():
                 enums=[dict(name='Kind', values=['KIND_UNSPECIFIED', 'ALPHA', 'BETA'])],
                 messages=[dict(name='Inner', fields=[dict(name='name'), dict(name='level', type='int32')]),
                           dict(name='Thing', fields=[dict(name='name'), dict(name='count', type='int32')]),
+                          dict(name='Empty', fields=[dict(name='name'), dict(name='count', type='int32')]),
                           dict(name='Req', fields=req_fields)],
                 services=[dict(name='Things', methods=methods)])
     yaml = {'type': 'google.api.Service', 'config_version': 3, 'name': 'lib.example.com',
